@@ -49,6 +49,7 @@ import json
 import os
 import random
 import textwrap
+import time
 
 import numpy as np
 import torch
@@ -226,6 +227,86 @@ def brief(x) -> str:
     return repr(x)[:40]
 
 
+def _fp(x, depth: int = 0) -> str:
+    """value fingerprint of whatever a network takes / returns (tensors, nested containers, TensorDicts)"""
+    if isinstance(x, torch.Tensor):
+        return walker.tensor_value(x)
+    if x is None or isinstance(x, (int, float, bool, str)):
+        return repr(x)
+    if depth > 4:
+        return type(x).__name__
+    if isinstance(x, (list, tuple)):
+        return "(" + ",".join(_fp(e, depth + 1) for e in x) + ")"
+    if isinstance(x, np.ndarray):
+        return walker._h(x.tobytes() + str(x.shape).encode())
+    try:
+        items = sorted((str(k), v) for k, v in x.items())
+        return "{" + ",".join(f"{k}:{_fp(v, depth + 1)}" for k, v in items) + "}"
+    except Exception:  # noqa: BLE001
+        pass
+    d = getattr(x, "__dict__", None)           # e.g. a torch.distributions object: its tensors
+    if isinstance(d, dict):
+        return type(x).__name__ + "{" + ",".join(f"{k}:{_fp(v, depth + 1)}" for k, v in sorted(d.items())
+                                                 if isinstance(v, (torch.Tensor, int, float, bool))) + "}"
+    return type(x).__name__
+
+
+class ForwardRecorder:
+    """forward interception on EVERY network of an agent (actors, critics, targets; per-agent members of the
+    multi-agent containers): remembers input and output of each network's first forward pass.  Parent and
+    clone copies that run the same rollout / learn step under the same seeds must agree network by network —
+    state_dicts can be equal while the computed function differs (a layer init_dict does not describe, a
+    detached encoder copy that state_dict does not contain)."""
+
+    def __init__(self, agent):
+        inner, _ = walker.unwrap(agent)
+        self.rec: dict = {}
+        self.order: list = []
+        self.handles = []
+        for name, net in sorted(inner.evolvable_attributes(networks_only=True).items()):
+            if hasattr(net, "items") and not isinstance(net, torch.nn.Module) or isinstance(net, torch.nn.ModuleDict):
+                members = [(f"{name}[{k}]", m) for k, m in net.items()]
+            elif isinstance(net, (list, tuple, torch.nn.ModuleList)):
+                members = [(f"{name}[{k}]", m) for k, m in enumerate(net)]
+            else:
+                members = [(name, net)]
+            for label, m in members:
+                m = getattr(m, "_orig_mod", m)
+                if isinstance(m, torch.nn.Module) and "forward" not in m.__dict__:
+                    # EvolvableModule.__call__ calls self.forward directly (forward hooks never fire): shadow
+                    # the method on the instance — these are the harness's throw-away copies
+                    object.__setattr__(m, "forward", self._wrap(label, m.forward))
+                    self.handles.append(m)
+
+    def _wrap(self, label, orig):
+        def forward(*args, **kwargs):
+            output = orig(*args, **kwargs)
+            if label not in self.rec:
+                self.rec[label] = (_fp((args, kwargs)), _fp(output))
+                self.order.append(label)
+            return output
+        return forward
+
+    def close(self):
+        for m in self.handles:
+            m.__dict__.pop("forward", None)
+        self.handles = []
+
+    def compare(self, other: "ForwardRecorder") -> str | None:
+        for label in self.order:
+            if label not in other.rec:
+                return f"network {label} is evaluated by the parent but not by the clone"
+            (i1, o1), (i2, o2) = self.rec[label], other.rec[label]
+            if i1 == i2 and o1 != o2:
+                return f"network {label} of the clone computes a different function than the parent's: same input, different output"
+            if i1 != i2:
+                return f"network {label} of the clone is fed different inputs than the parent's from the same batch"
+        extra = [x for x in other.order if x not in self.rec]
+        if extra:
+            return f"network {extra[0]} is evaluated by the clone but not by the parent"
+        return None
+
+
 _READS: dict = {}
 
 
@@ -264,10 +345,10 @@ class Pop:
     """real population + the model op lines that mirror it"""
 
     def __init__(self, chk: Check, algo: str, family: str, share, seed: int, mode: str = "repaired",
-                 wrap: str | None = None):
+                 wrap: str | None = None, opts: dict | None = None):
         import agents as A
         self.A, self.chk, self.algo, self.family, self.seed, self.wrap = A, chk, algo, family, seed, wrap
-        kw = {}
+        kw = dict(opts or {})                # non-default constructor options of the algorithm
         if os.environ.get("C01_EXPLICIT_ACT"):      # development aid: side-step the encoder default
             cfg = A.default_net_config(algo, family)
             if "hidden_size" in cfg["encoder_config"] or "channel_size" in cfg["encoder_config"]:
@@ -354,6 +435,7 @@ class Pop:
         if actor is not None and actor not in self.agents:
             return
         clone_pairs: list[tuple[int, int]] = []
+        self.lite = False
         if kind == "clone":
             child = self.agents[actor].clone(index=self.next)
             j = self.next
@@ -363,6 +445,7 @@ class Pop:
             self.remeasure([j] + [actor])
             self.after_clone(actor, j)
             clone_pairs.append((actor, j))
+            self.lite = len(op) > 2 and op[2] == "lite"
             # after_clone acts with parent and child (bandits: the confidence matrix is saved and restored,
             # i.e. re-bound to a new tensor): measure again so that no stale storage address is kept —
             # a freed address can be reused by another agent's tensor and would look like sharing
@@ -477,8 +560,15 @@ class Pop:
         # --- the decisive behavioural oracle: parent and clone compute the same updates from the same batches
         for parent, child in clone_pairs:
             if parent in self.agents and child in self.agents:
-                self.same_update(parent, child)
-        if self.A.is_bandit(self.algo) or clone_pairs:
+                self.same_update(parent, child, lite=self.lite)
+        if self.lite and clone_pairs:
+            # `clone i lite`: the checked clone leaves the population again within the same operation
+            j = clone_pairs[0][1]
+            del self.agents[j], self.groups[j], self.hidden[j]
+            self.greedy.pop(j, None)
+            self.lines.append(f"heap discard {self.model_index(j, dead_ok=True)}")
+            self.remeasure()
+        elif self.A.is_bandit(self.algo) or clone_pairs:
             self.remeasure()          # probing re-binds the bandits' confidence matrix (see above)
         # --- mirror the actor's own changes into the model so that its views stay in step
         if changed_actor in self.agents and kind not in ("clone", "select"):
@@ -610,7 +700,7 @@ class Pop:
                 ok.add(n)
                 self.tags.append(f"hidden-{verdict}")
 
-    def same_update(self, parent: int, child: int) -> None:
+    def same_update(self, parent: int, child: int, lite: bool = False) -> None:
         """'computes the same update from the same batch as its parent would' — k consecutive learn steps"""
         A = self.A
         try:
@@ -629,9 +719,13 @@ class Pop:
             getattr(pin, tgt.split(":", 1)[1]).load_state_dict(getattr(pin, src.split(":", 1)[1]).state_dict())
         pf = getattr(pin, "policy_freq", 2)
         k = min(8, max(4, 2 * pf)) if isinstance(pf, int) and pf > 0 else 4
+        if lite:
+            k = 1            # `clone … lite`: one step with the forward-pass comparison only (cheap)
         base = (self.seed * 31 + child * 7 + 5) % 100000
         with A._PreservedRNG():
             for step in range(k):
+                # step 1: record, per network, input and output of its FIRST forward pass (rollout / learn)
+                rp, rc = (ForwardRecorder(P), ForwardRecorder(C)) if step == 0 else (None, None)
                 try:
                     lp = A.learn_once(P, self.algo, self.family, seed=base + step)
                 except Exception as e:  # noqa: BLE001  (the parent itself cannot learn: not a clone matter)
@@ -639,12 +733,25 @@ class Pop:
                     self.chk.notes.append(f"same-update: learn on the parent copy raised {type(e).__name__}: "
                                           f"{str(e)[:100]}") if len(self.chk.notes) < 20 else None
                     return
+                finally:
+                    if rp is not None:
+                        rp.close()
                 try:
                     lc = A.learn_once(C, self.algo, self.family, seed=base + step)
                 except Exception as e:  # noqa: BLE001
+                    if rc is not None:
+                        rc.close()
                     self.problems.append(f"clone of agent {parent}: learn step {step + 1} after the clone raised "
                                          f"{type(e).__name__}: {str(e)[:120]} (the parent learns from the same batch)")
                     return
+                if rc is not None:
+                    rc.close()
+                    msg = rp.compare(rc)
+                    if msg:
+                        self.problems.append(f"clone of agent {parent}: {msg} (first forward pass after the clone, same "
+                                             f"batch and seeds)")
+                        return
+                    self.tags.append("net-outputs")
                 if not same_value(lp, lc):
                     self.problems.append(
                         f"clone of agent {parent} computes a different update: learn step {step + 1} of {k} on the same "
@@ -687,9 +794,9 @@ def sort_pairs(line: str) -> str:
     return " ".join(sorted(line.split()))
 
 
-def run_history(chk: Check, algo: str, family: str, share, seed: int, ops, mode="repaired", wrap=None):
+def run_history(chk: Check, algo: str, family: str, share, seed: int, ops, mode="repaired", wrap=None, opts=None):
     """returns dict(diff, problems, findings, tags, impl, model)"""
-    pop = Pop(chk, algo, family, share, seed, mode, wrap)
+    pop = Pop(chk, algo, family, share, seed, mode, wrap, opts)
     impl_lines: list[str] = []
     probe_at: list[int] = []
     for op in ops:
@@ -773,6 +880,59 @@ def gen_wrapped_history(rng: random.Random, length: int):
     return ops
 
 
+def gen_kinds_history(rng: random.Random, full_end: bool = True):
+    """learn; for each of the five mutation kinds (random order): mutate the root, clone it (`lite`: first forward
+    pass of every network + one learn step compared; the clone leaves the population again) — a later mutation may rebuild the networks
+    from init_dict and hide what an earlier one left behind —; finally a fully checked clone that is trained"""
+    ops = [["learn", 0, rng.randrange(1000)]]
+    kinds = list(MUT_KINDS)
+    rng.shuffle(kinds)
+    nxt = 1
+    for kind in kinds:
+        ops += [["mutate", 0, kind, rng.randrange(1000)], ["clone", 0, "lite"]]
+        nxt += 1
+    if full_end:
+        ops += [["learn", 0, rng.randrange(1000)], ["clone", 0], ["learn", nxt, rng.randrange(1000)]]
+    return ops
+
+
+# non-default values for constructor options, by parameter name (applied when the signature has the name and the
+# tree under test constructs, acts and learns with it); chosen so that the option really changes what learn() does
+# (target_kl small enough to stop every update early, update_epochs > 1, delayed policy updates every 3rd step, …)
+NONDEFAULT = {"target_kl": 1e-9, "update_epochs": 3, "policy_freq": 3, "double": True, "tau": 0.05, "gamma": 0.9,
+              "clip_coef": 0.1, "ent_coef": 0.02, "vf_coef": 0.3, "gae_lambda": 0.9, "max_grad_norm": 0.4,
+              "expl_noise": 0.2, "O_U_noise": False, "noise_std": 0.3, "lamb": 0.5, "reg": 0.01,
+              "lr": 0.01, "lr_actor": 0.01, "lr_critic": 0.02, "learn_step": 3, "theta": 0.1, "dt": 0.02}
+_OPTS: dict = {}
+
+
+def nondefault_options(algo: str) -> dict:
+    import agents as A
+    if algo in _OPTS:
+        return _OPTS[algo]
+    try:
+        params = inspect.signature(A.algo_class(algo).__init__).parameters
+    except Exception:  # noqa: BLE001
+        params = {}
+    cand = {k: v for k, v in NONDEFAULT.items() if k in params}
+
+    def works(o):
+        with A._PreservedRNG():
+            try:
+                ag = A.build(algo, "vector", seed=0, hp_config=A.default_hp_config(algo), **o)
+                act_training(ag, algo, A.sample_obs(ag, algo, "vector", 3, seed=0), 0)
+                A.learn_once(ag, algo, "vector", seed=0)
+                return True
+            except Exception:  # noqa: BLE001
+                return False
+    if not works(cand):
+        cand = {k: v for k, v in cand.items() if works({k: v})}
+        if not works(cand):
+            cand = {}
+    _OPTS[algo] = cand
+    return cand
+
+
 WRAP_ALGOS = ["DQN", "RainbowDQN", "CQN", "DDPG", "TD3", "PPO", "NeuralUCB", "NeuralTS", "MADDPG", "MATD3", "IPPO"]
 
 
@@ -786,7 +946,7 @@ def case_list(chk: Check):
         if wrap is not None and (wrap not in wrapper_classes() or not wrap_supported(wrap, c["algo"], c["family"])[0]):
             chk.notes.append(f"corpus case {f.name} skipped: {wrap}({c['algo']}) cannot act/learn on this tree")
             continue
-        cases.append((c["algo"], c["family"], c.get("share"), c["seed"], c["ops"], wrap))
+        cases.append((c["algo"], c["family"], c.get("share"), c["seed"], c["ops"], wrap, c.get("opts")))
     fams = {"quick": ["vector"], "thorough": ["vector", "image", "dict", "discrete"]}[chk.tier]
     reps = 1 if chk.tier == "quick" else 2
     length = 5 if chk.tier == "quick" else 12
@@ -799,14 +959,19 @@ def case_list(chk: Check):
                 shares = [True, False] if (chk.tier == "thorough" or fam == "vector") else [True]
             for share in shares:
                 for _ in range(reps):
-                    cases.append((algo, fam, share, rng.randrange(1 << 20), gen_history(rng, length), None))
-    # in the quick tier add one random non-vector family per run
-    if chk.tier == "quick":
-        for _ in range(3):
-            algo = rng.choice(A.ALGOS)
-            fam = rng.choice(["image", "dict", "discrete", "tuple"])
+                    cases.append((algo, fam, share, rng.randrange(1 << 20), gen_history(rng, length), None, None))
+    # every mutation kind x every observation-space family x every algorithm that accepts it: a directed history
+    # (all five kinds in random order, a cheap clone check after each, a full one at the end)
+    for algo in A.ALGOS:
+        for fam in ["image", "dict", "tuple", "discrete"]:
             if A.supported(algo, fam) and not A.known_broken(algo, fam):
-                cases.append((algo, fam, None, rng.randrange(1 << 20), gen_history(rng, length), None))
+                cases.append((algo, fam, None, rng.randrange(1 << 20), gen_kinds_history(rng, chk.tier != "quick"), None, None))
+    # non-default constructor options (whatever of NONDEFAULT the signature has and the tree accepts)
+    for algo in A.ALGOS:
+        opts = nondefault_options(algo)
+        if opts:
+            cases.append((algo, "vector", None, rng.randrange(1 << 20),
+                          gen_history(rng, 1 if chk.tier == "quick" else 8), None, opts))
     # wrapped agents: every wrapper class of agilerl.wrappers.agent x every algorithm it can act and learn with
     wfams = ["vector", "dict"] if chk.tier == "quick" else ["vector", "image", "dict", "tuple", "discrete"]
     for wname in wrapper_classes():
@@ -825,14 +990,14 @@ def case_list(chk: Check):
         else:
             picked = usable
         for algo, fam, _ in picked:
-            cases.append((algo, fam, None, rng.randrange(1 << 20), gen_wrapped_history(rng, length), wname))
+            cases.append((algo, fam, None, rng.randrange(1 << 20), gen_wrapped_history(rng, length), wname, None))
     return cases
 
 
 def report(chk: Check, case, res, shrink=True):
-    algo, fam, share, seed, ops, wrap = case
-    label = f"{wrap}({algo})" if wrap else algo
-    replay = {"algo": algo, "family": fam, "share": share, "seed": seed, "wrap": wrap, "ops": ops,
+    algo, fam, share, seed, ops, wrap, opts = case
+    label = (f"{wrap}({algo})" if wrap else algo) + (f"[{', '.join(f'{k}={v}' for k, v in opts.items())}]" if opts else "")
+    replay = {"algo": algo, "family": fam, "share": share, "seed": seed, "wrap": wrap, "opts": opts, "ops": ops,
               "impl_alias": res["impl"], "model_alias": res["model"], "groups": res.get("names"),
               "problems": res["problems"], "correspondence": "harness/c01.py + walker.py vs Model/Heap.lean",
               "theorems": chk.gate["theorems"]}
@@ -845,11 +1010,11 @@ def report(chk: Check, case, res, shrink=True):
                     return False
                 budget[0] -= 1
                 try:
-                    return bool(run_history(chk, algo, fam, share, seed, sub, wrap=wrap)["problems"])
+                    return bool(run_history(chk, algo, fam, share, seed, sub, wrap=wrap, opts=opts)["problems"])
                 except Exception:
                     return False
             small = ddmin(ops, fails)
-            r2 = run_history(chk, algo, fam, share, seed, small, wrap=wrap)
+            r2 = run_history(chk, algo, fam, share, seed, small, wrap=wrap, opts=opts)
             if r2["problems"]:
                 replay.update(ops=small, problems=r2["problems"], impl_alias=r2["impl"], model_alias=r2["model"])
         chk.violation(f"{label}/{fam}/share={share}: {replay['problems'][0]}", replay)
@@ -917,22 +1082,31 @@ def run(chk: Check) -> None:
     cases = case_list(chk)
     ndiff = 0
     nsame = 0
+    spent: dict = {}
     for case in cases:
-        algo, fam, share, seed, ops, wrap = case
+        algo, fam, share, seed, ops, wrap, opts = case
+        t_case = time.time()
         try:
-            res = run_history(chk, algo, fam, share, seed, ops, wrap=wrap)
+            res = run_history(chk, algo, fam, share, seed, ops, wrap=wrap, opts=opts)
         except InfraError:
             raise
+        cat = "wrapped" if wrap else "options" if opts else "kinds-x-families" if any(
+            o[0] == "clone" and len(o) > 2 for o in ops) else "histories"
+        spent[cat] = round(spent.get(cat, 0.0) + time.time() - t_case, 1)
         nsame += res["same_update_checks"]
         nontriv = any(o[0] == "clone" for o in ops) and any(o[0] in ("learn", "mutate") for o in ops)
-        chk.case([algo, fam, share, wrap, seed, ops], nontrivial=nontriv,
-                 sample={"algo": algo, "family": fam, "share_encoders": share, "wrapper": wrap, "ops": ops[:6]},
-                 tags=res["tags"] + [f"algo-{algo}", f"obs-{fam}"] + ([f"wrap-{wrap}"] if wrap else []))
+        chk.case([algo, fam, share, wrap, opts, seed, ops], nontrivial=nontriv,
+                 sample={"algo": algo, "family": fam, "share_encoders": share, "wrapper": wrap, "options": opts,
+                         "ops": ops[:6]},
+                 tags=res["tags"] + [f"algo-{algo}", f"obs-{fam}"] + ([f"wrap-{wrap}"] if wrap else [])
+                 + ([f"opt-{k}" for k in opts] if opts else [])
+                 + [f"{fam}-x-{o[2]}" for o in ops if o[0] == "mutate"])
         for fid, detail in dict(res["findings"]).items():
-            chk.finding(fid, detail, {"algo": algo, "family": fam, "seed": seed, "wrap": wrap, "ops": ops})
+            chk.finding(fid, detail, {"algo": algo, "family": fam, "seed": seed, "wrap": wrap, "opts": opts, "ops": ops})
         if res["problems"] or res["diff"] is not None:
             ndiff += res["diff"] is not None
             report(chk, case, res)
+    chk.notes.append(f"seconds per case family: {spent}")
     chk.suite("heap-histories", len(cases), ndiff)
     chk.suite("same-update-after-clone", nsame, 0)
     if cases and nsame == 0:
@@ -1001,7 +1175,7 @@ def selftest(chk: Check) -> None:
 def replay(chk: Check, path: str) -> int:
     c = json.loads(open(path).read())
     c = c.get("replay", c)
-    res = run_history(chk, c["algo"], c["family"], c.get("share"), c["seed"], c["ops"], wrap=c.get("wrap"))
+    res = run_history(chk, c["algo"], c["family"], c.get("share"), c["seed"], c["ops"], wrap=c.get("wrap"), opts=c.get("opts"))
     print(json.dumps({k: res[k] for k in ("diff", "problems", "findings", "impl", "model")}, indent=1, default=str))
     if res["problems"]:
         print(f"VIOLATION property=C01 replay={path}")
